@@ -33,7 +33,11 @@ pub fn op(rng: &mut Rng) -> Term {
         }
         1 | 2 | 3 => tag("set", vec![ts(v), pick_path(rng, 3), ts(KEYS[rng.below(KEYS.len())])]),
         4 | 5 => tag("unset", vec![ts(v), pick_path(rng, 3)]),
-        6 => tag("remove", vec![ts(v), ts(w), pick_path(rng, 2)]),
+        6 => {
+            // now and then with no key at all: still a dictionary operation on its argument
+            let keys = if rng.chance(1, 4) { tl(vec![]) } else { pick_path(rng, 2) };
+            tag("remove", vec![ts(v), ts(w), keys])
+        }
         7 => tag("copy", vec![ts(v), ts(w)]),
         8 => tag("get", vec![ts(w), pick_path(rng, 3)]),
         9 => tag("exists", vec![ts(w), pick_path(rng, 3)]),
